@@ -119,6 +119,37 @@ def run(F, ck, tier):
         g = [e for e in fl.events if e.kind == 'guard']
         idx_ok = any(flow.has_param(e.val, 'leaf_index') and flow.has_param(e.val, 'merkle_cap') for e in g)
         ck.ob('R12.3', 'merkle.cap_index', idx_ok, 'final comparison indexes the cap with the remaining bits of leaf_index' if idx_ok else 'final guard does not select the cap entry by leaf_index', '%s:%d' % (vb.file, vb.line))
+        # the cap entry is selected by the remaining index bits themselves: an index that also depends on the cap (masking with
+        # cap.len() - 1, reducing modulo its length) accepts leaf_index + k * cap.len() for the same path
+        fli = flow.Flow(F, vb, track_idx=True)
+        capidx = [e for e in fli.events if e.kind == 'index' and flow.has_param(e.recv, 'merkle_cap')]
+        okc = bool(capidx) and all(flow.has_param(e.args[0], 'leaf_index') and not flow.has_param(e.args[0], 'merkle_cap') for e in capidx)
+        ck.ob('R12.3', 'merkle.cap_index_exact', okc, 'the cap is indexed by the remaining bits of leaf_index alone' if okc else
+              'verify_batch_merkle_proof_to_cap selects the cap entry with an index that %s: several leaf indices are accepted for one authentication path' %
+              ('also depends on the cap itself (masked / reduced by its length)' if capidx else 'is no longer derived from leaf_index'), capidx[0].loc() if capidx else '%s:%d' % (vb.file, vb.line))
+    # ---- R12.5 representation independence
+    ck.rule('R12.5', 'raw field representation (to_noncanonical_u64, GoldilocksField.0) is read only by the Poseidon arithmetic kernels: digests, leaves and encodings are functions of the field VALUE')
+    raw = 0
+    for fn in F.fns.values():
+        if fn.crate not in ('plonky2', 'starky') or fn.body is None:
+            continue
+        allowed = '/hash/poseidon' in fn.file or '/hash/arch/' in fn.file
+        seen_here = set()
+        for n in walk(fn.body):
+            what = None
+            if n.get('k') == 'MCall' and n.get('n') == 'to_noncanonical_u64':
+                what = 'to_noncanonical_u64'
+            elif n.get('k') == 'Field' and n.get('n') == '0' and (fn.ty(n['e']) or '').replace('&', '').strip().endswith('GoldilocksField'):
+                what = 'GoldilocksField.0'
+            if what is None:
+                continue
+            raw += 1
+            if allowed or what in seen_here:
+                continue
+            seen_here.add(what)
+            ck.ob('R12.5', 'raw-repr:%s:%s' % (fn.qual, what), False, '%s reads the raw (possibly non-canonical) representation of a field element with %s: equal field values can then give different bytes / digests' % (fn.qual, what), n.get('s'))
+    ck.ob('R12.5', 'raw-repr:confined', True, '%d raw-representation reads, all inside hash/poseidon*.rs / hash/arch' % raw)
+    ck.floor('R12.5', 'raw-representation reads seen (the rule matches its positive examples)', raw, 4)
     # ---- R12.4
     sites = 0
     FILES = ('hash/merkle_tree.rs', 'hash/batch_merkle_tree.rs', 'hash/merkle_proofs.rs', 'hash/path_compression.rs')
